@@ -153,6 +153,20 @@ Definition dec_fanout (j : J) : option (option nat) :=
 Definition obind2 {A B C} (a : option A) (b : option B) (f : A -> B -> C) : option C :=
   match a, b with Some x, Some y => Some (f x y) | _, _ => None end.
 
+(* side-input functions: ["addlen"] ["addsum"] ; ["in"] ["notin"] ["lengt", n] *)
+Definition dec_sfun (j : J) : option sfun :=
+  match j with
+  | JL [JS t] => if tag_is t "addlen" then Some SFAddLen
+                 else if tag_is t "addsum" then Some SFAddSum else None
+  | _ => None
+  end.
+Definition dec_spred (j : J) : option spred :=
+  match j with
+  | JL [JS t] => if tag_is t "in" then Some SPIn else if tag_is t "notin" then Some SPNotIn else None
+  | JL [JS t; a] => if tag_is t "lengt" then option_map SPLenGt (dec_nat a) else None
+  | _ => None
+  end.
+
 Fixpoint dec_step (j : J) : option step :=
   match j with
   | JL [JS t] =>
@@ -177,7 +191,11 @@ Fixpoint dec_step (j : J) : option step :=
       else if tag_is t "top_k_per_key" then option_map STopKPerKey (dec_nat a)
       else None
   | JL [JS t; a; b] =>
-      if tag_is t "map_batches" then obind2 (dec_nat a) (dec_bfun b) SMapBatches
+      if tag_is t "map_with_side" then obind2 (dec_vals a) (dec_sfun b) SMapWithSide
+      else if tag_is t "filter_with_side" then obind2 (dec_vals a) (dec_spred b) SFilterWithSide
+      else if tag_is t "map_with_side_map" then obind2 (dec_vals a) (jint b) SMapWithSideMap
+      else if tag_is t "try_map" then obind2 (dec_efun a) (dec_pfun b) STryMap
+      else if tag_is t "map_batches" then obind2 (dec_nat a) (dec_bfun b) SMapBatches
       else if tag_is t "map_values_batches" then obind2 (dec_nat a) (dec_bfun b) SMapValuesBatches
       else None
   | JL [JS t; a; b; c] =>
@@ -237,11 +255,13 @@ Definition dec_src (j : J) : option src :=
 Inductive obs := OOk (rows : list val) | OErr (e : nat) | OPanic | OHang.
 
 Definition E_OTHER := 99%nat.
+Definition E_FAIL_FAST := 5%nat.           (* collect_fail_fast: "element failed: .." *)
 Definition dec_err_class (s : string) : nat :=
   if tag_is s "terminal_mismatch" then E_TERMINAL_MISMATCH
   else if tag_is s "nested_cogroup" then E_NESTED_COGROUP
   else if tag_is s "no_source" then E_NO_SOURCE
   else if tag_is s "extra_source" then E_EXTRA_SOURCE
+  else if tag_is s "fail_fast" then E_FAIL_FAST
   else E_OTHER.
 
 Definition dec_obs (j : J) : option obs :=
